@@ -133,7 +133,7 @@ pub struct Endpoint {
     pub is_client: bool,
     enc: loona_hpack::Encoder<'static>,
     dec: loona_hpack::Decoder<'static>,
-    parsed: usize,
+    pub parsed: usize,
     preface_seen: bool,
     /// header block being assembled: (stream, end_stream flag, fragments)
     partial: Option<(u32, bool, Vec<u8>)>,
